@@ -571,6 +571,21 @@ func runCode(rep *vh.Report, env vh.Env, stacks []*stack, n, only int) {
 			case 1:
 				codes = []string{as.SealCookie(s)}
 				tr.Class, tr.Sig = "other-key:own-cookie-key", "sealed-with-cookie-key"
+				if r.Intn(2) == 0 {
+					// the same value has just been presented to the authenticator where it belongs - as the
+					// browser's session cookie at /sign_in - before it is tried as a code (whatever the
+					// authenticator remembers of values it has opened must not make it a code; added after
+					// seeded change C08l, a memo of unsealed values keyed by the sealed string alone)
+					q := as.SignInQuery("http://app.sso.test/oauth2/callback", "state-"+tag, time.Now().Unix())
+					as.IdP.Set("introspect", s.AccessToken, sut.IntrospectOK(true))
+					pre := as.Client.Do(sut.Req{Host: as.Host, Target: as.Path("sign_in") + "?" + q.Encode(), Cookies: []string{as.CookieName + "=" + codes[0]}})
+					st.attribute(len(as.IdP.Calls("introspect", s.AccessToken)))
+					as.IdP.Unset("introspect", s.AccessToken)
+					if pre.Err == nil {
+						tr.Class = "other-key:own-cookie-key-after-use-as-cookie"
+						rep.Count("codes_cookie_value_first_presented_as_cookie", 1)
+					}
+				}
 			case 2:
 				codes = []string{seal(s, st.other.CodeCipher)}
 				tr.Class, tr.Sig = "other-key:other-authenticator-code-key", "other-key"
